@@ -119,6 +119,12 @@ def check(ctx):
         inits = [a for a in walk_no_nested(pt) if isinstance(a, ast.Assign) and unparse(a.targets[0]) == buf]
         ok = bool(host) and len(inits) == 1 and inits[0] in host[0].body and inits[0].lineno < flush[0].lineno
     ctx.ob("PAIR.flush-fresh", pt, "partition(): the buffer appended to the on-disk store each block is created inside that block's iteration", ok, "" if ok else "the buffer outlives the iteration: every later block re-appends the earlier blocks, groups get duplicated elements")
+    # ---------------- repartition(npartitions=) : the boundaries cover every input partition
+    rfb = mod.func("_repartition_from_boundaries")
+    ok = any(isinstance(n, ast.If) and unparse(n.test) == "new_partitions_boundaries[0] > 0" and "insert(0, 0)" in unparse(n) for n in walk_no_nested(rfb)) and any(isinstance(n, ast.If) and unparse(n.test) == "new_partitions_boundaries[-1] < bag.npartitions" and "append(bag.npartitions)" in unparse(n) for n in walk_no_nested(rfb))
+    ctx.ob("ABS.repartition.boundaries-cover", rfb, "boundaries are made to start at 0 and to end at bag.npartitions", ok, "" if ok else "float rounding of new*(old/new) can stop one short: the last input partition is silently dropped")
+    ok = bool(find("num_new_partitions = len(new_partitions_boundaries) - 1", rfb))
+    ctx.ob("ABS.repartition.count", rfb, "one output partition per consecutive boundary pair", ok)
 
 
 VARIANTS = [
